@@ -46,6 +46,7 @@ func Compile(expr string, options ...CompileOption) (*Expression, error) {
 		Functions:  config.Table,
 		Permissive: config.Permissive,
 	}
+	verifVisitor(visitor)
 	vr, ok := visitor.Visit(tree).(*parser.VisitResult)
 	if !ok {
 		return nil, errors.New("input expression currently unsupported")
